@@ -89,6 +89,7 @@ def run(rep: Report, tier: str, only=None) -> None:
 	rep.run_jobs(jobs)
 	if not only or 'O6' in only or 'O6.indent_unit' in only or 'O5.templates' in only:
 		rep.run_closed('O5.templates', H, 'templates_closed', {}, '480 structured multi-line sources (bracket continuation x block indentation x comments / blank lines) against the real tokenize module (closed)')
+		rep.run_closed('O5.strings', H, 'strings_closed', {}, '28 string literals (plain, raw, triple double-quoted; escaped quotes and backslashes next to the closing quote; comment / bracket characters inside; adjacent literals) in three statement contexts against the real tokenize module (closed)')
 		rep.run_closed('O6.indent_unit', H, 'indent_unit_closed', {}, '14 nestings x 4 indentation units x 8 bodies (closed, evaluated directly)')
 	rep.check_recorded()
 
